@@ -16,16 +16,19 @@ def run(ctx):
         "panics are modelled at user-code call sites (resolver, schema directive); a recover at every goroutine boundary of the generated code is a regenerated fact (Gen/GoBoundaries)",
         "gqlparser parse+validate modelled-not-verified; scheduling abstracted (C06)",
     ]
-    cfgs0 = ["base", "wl1", "wl2"] if ctx.tier == "quick" else ["base", "wl1", "wl2", "follow_funcsyn_wl2", "noptr", "funcsyn"]
+    cfgs0 = ["base", "wl1", "wl2", "follow_funcsyn_wl2"] if ctx.tier == "quick" else ["base", "wl1", "wl2", "follow_funcsyn_wl2", "noptr", "funcsyn"]
     built = gensrv.build_matrix(ctx, "exec", cfgs0)
     # panic-containment facts, re-extracted from the server generated on this run
     ok_extract = not isinstance(built["base"], Exception) and ctx.extract("GoBoundaries", arg=gensrv.gen_dir("exec", "base"))
     proved = ok_extract and ctx.prove(props=["GqlgenVerif.Props.C04", "GqlgenVerif.Props.C04Gen"])
     if ok_extract and not proved:
         ctx.cov["proof_failure"] = ctx.proof_failure
-    cfgs = ["base", "wl1", "wl2"] if ctx.tier == "quick" else ["base", "wl1", "wl2", "follow_funcsyn_wl2", "noptr", "funcsyn"]
+    cfgs = cfgs0
     n_rand = 600 if ctx.tier == "quick" else 6000
     n_ops = 60 if ctx.tier == "quick" else 500
+    fd = gensrv.build_matrix(ctx, "execfd", ["base"])
+    built["execfd:base"] = fd["base"]
+    cfgs = list(cfgs) + ["execfd:base"]
     dist = Counter()
     nontriv = set()
     total = 0
